@@ -74,6 +74,22 @@ fn check_node(src: &str, l: &mut Local) -> Outcome {
         (Ok(_), Err(m)) => return fail("C16/deserialization fails although precompilation succeeds", "Ok(tree)", m.to_string(), src_case(src), src.len()),
         (Err(e), Ok(_)) => return fail("C16/deserialization succeeds although precompilation fails", e.to_string(), "Ok(tree)", src_case(src), src.len()),
     }
+    // the borrowed-string route (visit_borrowed_str) and a reader-based route (transient visit_str
+    // from serde_json's io reader): a visitor may implement each of them separately
+    let borrowed: Result<Tree, serde::de::value::Error> = Tree::deserialize(serde::de::value::BorrowedStrDeserializer::new(src));
+    match (&built, &borrowed) {
+        (Ok(a), Ok(b)) if tree_same(a, b) => {},
+        (Err(e), Err(m)) if e.to_string() == m.to_string() => {},
+        _ => {
+            return fail(
+                "C16/deserialization from a borrowed string differs",
+                format!("{:?}", built.as_ref().map(|_| "tree").map_err(|e| e.to_string())),
+                format!("{:?}", borrowed.as_ref().map(|_| "tree").map_err(|e| e.to_string())),
+                src_case(src),
+                src.len(),
+            )
+        },
+    }
     // through the in-memory data-model format
     let c = content::to_content(src).expect("a str serialises");
     let via_content: Result<Tree, content::Error> = content::from_content(c);
@@ -93,6 +109,20 @@ fn check_node(src: &str, l: &mut Local) -> Outcome {
     // through serde_json's string encoding
     let encoded = serde_json::to_string(src).expect("a str serialises to JSON");
     let via_json: Result<Tree, serde_json::Error> = serde_json::from_str(&encoded);
+    let via_reader: Result<Tree, serde_json::Error> = serde_json::from_reader(encoded.as_bytes());
+    match (&via_json, &via_reader) {
+        (Ok(a), Ok(b)) if tree_same(a, b) => {},
+        (Err(a), Err(b)) if a.to_string() == b.to_string() => {},
+        _ => {
+            return fail(
+                "C16/deserialization from a JSON reader differs from deserialization from a JSON string",
+                format!("{:?}", via_json.as_ref().map(|_| "tree").map_err(|e| e.to_string())),
+                format!("{:?}", via_reader.as_ref().map(|_| "tree").map_err(|e| e.to_string())),
+                src_case(src),
+                src.len(),
+            )
+        },
+    }
     match (&built, &via_json) {
         (Ok(a), Ok(b)) if tree_same(a, b) => {},
         // serde_json appends " at line L column C"
